@@ -70,13 +70,16 @@ def alphabet(st, hist):
     # table has no visible column w)
     reuse = [["mutate", [["v3", ["add", ["col", "at", i, "w"], lit(0)]]]] for i in range(1, len(hist) - 1)
              if hist[i][0] == "mutate" and hist[i][1][0][0] == "w"]
+    if len(hist) > 1 and hist[-1][0] == "mutate" and hist[-1][1][0][0] == "v3":
+        return []  # the probe ends the history
     if len(hist) > 1 and hist[-1][0] == "alias":
         return ALPHABET + reuse
     return [ALIAS] + ALPHABET + reuse
 
 
 def size(hist):
-    return sum(1 for e in hist[1:] if e[0] != "alias")
+    # alias() and the final re-use probe of a hidden window column do not count
+    return sum(1 for e in hist[1:] if e[0] != "alias" and not (e[0] == "mutate" and e[1][0][0] == "v3"))
 
 
 def is_simple(hist):
